@@ -16,6 +16,7 @@ C->S:  FitPressureTrace.tla judges (a) _obj_function against M * RF_lib - produc
 """
 from __future__ import annotations
 
+import itertools
 import math
 import warnings
 from concurrent.futures import ProcessPoolExecutor, ThreadPoolExecutor
@@ -137,6 +138,9 @@ def evaluate(cap: dict, params):
         return np.asarray(cap["fcn"](params, *cap["call_args"], **cap["call_kws"]), dtype=float)
 
 
+_FRESH_TAU = itertools.count(1)   # every retry of observe() uses a tau this process has never used before
+
+
 def observe(cap: dict) -> dict | None:
     """What the fit is run on, read off the library's own forward simulation: the objective is evaluated at the initial parameter
     values (twice, with M and 2 M) while SinglePhaseReservoir.simulate is watched.  Returns days (re-indexed time axis = simulated
@@ -156,11 +160,19 @@ def observe(cap: dict) -> dict | None:
 
     klass.simulate = simulate
     try:
-        p1 = cap["params"].copy()
-        m1, tau = float(p1["M"].value), float(p1["tau"].value)
-        o1 = evaluate(cap, p1)
-        nsim = len(seen)
-        p2 = cap["params"].copy()
+        # the objective is a function of its parameters: whether an evaluation runs the simulation itself or answers from a (correct)
+        # store of finished simulations is the library's business.  If the evaluation at the initial values ran no simulation, the
+        # same reading is taken at a slightly different tau, which no store can have seen.
+        for attempt in range(4):
+            del seen[:]
+            p1 = cap["params"].copy()
+            m1, tau = float(p1["M"].value), float(p1["tau"].value) * (1.0 + (next(_FRESH_TAU) * 7.3e-9 if attempt else 0.0))
+            p1["tau"].set(value=tau, min=-np.inf, max=np.inf)
+            o1 = evaluate(cap, p1)
+            nsim = len(seen)
+            if nsim == 1:
+                break
+        p2 = p1.copy()
         p2["M"].set(value=2.0 * m1, min=-np.inf, max=np.inf)
         o2 = evaluate(cap, p2)
     finally:
